@@ -98,6 +98,8 @@ def run_op(ex, msg):
 
 def serve(sock, init):
     S.root = init.get("root")
+    from . import canon as _canon
+    _canon.SCRATCH_ROOT[0] = S.root
     S.budget = int(init.get("budget", 5000))
     seams.install_entropy(int(init.get("entropy", 1)))
     signal.signal(signal.SIGALRM, _alarm)
